@@ -40,7 +40,7 @@ def _run(fault, size, kf, cb, fk, fi, c1, b1, c2, b2, c3, b3, fin, rx, tag):
         try:
             raising = (fi,) if (fault and fk == 1) else ()
             if kf == 0:
-                F = itF.apply(3, raising=raising)
+                F = itF.apply(3, args=(7, ("x",)), kwargs={"k": None}, raising=raising)    # non-string arguments: what error paths print
             elif kf == 1:
                 F = itF.map(3, 2, bad=(fi if (fault and fk == 1) else -1))
             else:       # starmap whose faulty element cannot even be unpacked
